@@ -107,6 +107,16 @@ def isPyWs (c : Char) : Bool :=
 /-- `not s.strip()`. -/
 def isBlank (s : String) : Bool := s.toList.all isPyWs
 
+/-- `str.split(sep)` for a one-character separator, on characters (structural, so that the
+    kernel can evaluate it; `String.splitOn` does not reduce). -/
+def splitOnChar (sep : Char) : List Char → List Char → List (List Char)
+  | acc, [] => [acc.reverse]
+  | acc, c :: cs =>
+    if c = sep then acc.reverse :: splitOnChar sep [] cs else splitOnChar sep (c :: acc) cs
+
+def splitChar (sep : Char) (s : String) : List String :=
+  (splitOnChar sep [] s.toList).map String.ofList
+
 /-- `$PYPYR_SKIP_INIT` is truthy (`cast_str_to_bool(os.getenv('PYPYR_SKIP_INIT', '0'))`). -/
 def Env.skip (e : Env) : Bool := castStrToBool (e.getD "PYPYR_SKIP_INIT" "0")
 
@@ -278,7 +288,7 @@ def userConfigPath (e : Env) : String :=
 def commonConfigPaths (e : Env) : List String :=
   let path := e.getD "XDG_CONFIG_DIRS" ""
   let path := if isBlank path then commonBaseDefault e.platform else path
-  ((path.splitOn ":").filter (fun p => !isBlank p)).map appendCfg
+  ((splitChar ':' path).filter (fun p => !isBlank p)).map appendCfg
 
 /-- `$PYPYR_CONFIG_GLOBAL` when set and non-empty (`if env_config_path_str:`). -/
 def Env.globalPath? (e : Env) : Option String :=
@@ -374,7 +384,7 @@ def ConfigState.dict? (st : ConfigState) (k : String) : Option Dict := dictsGet?
 /-- A path string pathlib leaves unchanged: non-empty, no empty or `.` component after the
     first, no trailing slash. -/
 def pathClean (s : String) : Bool :=
-  match s.splitOn "/" with
+  match splitChar '/' s with
   | [] => false
   | first :: rest => s != "" && first != "." && rest.all (fun c => c != "" && c != ".")
 
